@@ -81,6 +81,16 @@ C11ok(E, tags, fin) ==
                /\ Cardinality(completes) = 1 /\ errors = {} /\ \A q \in completes : q > lastItem
                /\ NoDup(d)
 
+\* tag "bag": the inputs are created while the stream runs (flat_map whose source is fed by several threads): subscriber 1 gets
+\* exactly the items of q.expect, each once, in any order, and then exactly one complete
+C11bag(E, tags, q) == HasTag(tags, "bag") =>
+  LET d == Delivered(E, 1)
+      completes == { p \in CbStarts(E, 1) : E[p].k = "c" }
+      errors == { p \in CbStarts(E, 1) : E[p].k = "e" }
+      items == { p \in CbStarts(E, 1) : E[p].k = "n" }
+  IN /\ q.fin = "ok" /\ errors = {} /\ Cardinality(completes) = 1 /\ \A c \in completes : \A p \in items : p < c
+     /\ NoDup(d) /\ Len(d) = Len(q.expect) /\ \A i \in 1..Len(q.expect) : \E j \in 1..Len(d) : d[j] = q.expect[i][2]
+
 \* ---------------------------------------------------------------- C12: subjects used from several threads
 \* tags: "subject:<kind>", "producers:<n>" (sources 1..n call next), subscriber 1 = present from the start (stable),
 \*       "latesub:2" = subscriber 2 subscribes concurrently, "unsub:1" = subscriber 1 unsubscribes concurrently
@@ -273,7 +283,7 @@ Judge(E, tags, q) ==
    C16 |-> IF C16ok(E, tags, q, q.period) THEN "ok" ELSE "bad", C13 |-> IF C13ok(E, tags, q, q.period) THEN "ok" ELSE "bad", C18 |-> IF ~HasTag(tags, "tovec") \/ C18ok(E, q) THEN "ok" ELSE "bad",
    C08 |-> IF ~(HasTag(tags, "queue") \/ HasTag(tags, "default_queue")) \/ C08ok(E, tags, q) THEN "ok" ELSE "bad",
    C19 |-> IF C19ok(E) THEN "ok" ELSE "bad", C05 |-> IF C05ok(E) THEN "ok" ELSE "bad",
-   C11 |-> IF C11ok(E, tags, fin) THEN "ok" ELSE "bad", C12 |-> IF C12ok(E, tags, fin) THEN "ok" ELSE "bad",
+   C11 |-> IF C11ok(E, tags, fin) /\ C11bag(E, tags, q) THEN "ok" ELSE "bad", C12 |-> IF C12ok(E, tags, fin) THEN "ok" ELSE "bad",
    \* C07: every call returned and every thread finished, or the only threads left are parked on a condition variable (an idle
    \* scheduler worker waiting for work; whether it should have exited is C15's question, whether work was lost C08's / C18's)
    C07 |-> IF fin = "ok" \/ (fin = "stuck" /\ q.nblocked = q.nparked) THEN "ok" ELSE "bad"]
